@@ -63,11 +63,11 @@ var graphs = []graphSpec{
 
 type scenario struct {
 	Graph    string `json:"graph"`
-	Fail     []int  `json:"fail"`      // nodes whose command fails
+	Fail     []int  `json:"fail"` // nodes whose command fails
 	FailFast bool   `json:"fail_fast"`
 	Workers  int    `json:"workers"`
-	Signal   bool   `json:"signal"`    // an external cancel (SIGINT) arrives at an arbitrary point
-	ErrKind  string `json:"err_kind"`  // "plain" | "canceled" (context.Canceled although nothing was cancelled)
+	Signal   bool   `json:"signal"`   // an external cancel (SIGINT) arrives at an arbitrary point
+	ErrKind  string `json:"err_kind"` // "plain" | "canceled" (context.Canceled although nothing was cancelled)
 }
 
 func (s scenario) name() string {
@@ -269,6 +269,9 @@ func (sc scenario) run(t *testing.T, cfg vs.Config) explore.Exec {
 	}
 	for _, p := range res.Panics {
 		add("C04:panic", "%s", p)
+	}
+	for _, r := range res.Races {
+		add("C04:unsynchronised-map-access:"+strings.SplitN(r, ":", 2)[0], "%s (a concurrent map read/write is a fatal runtime error in some schedule)", r)
 	}
 	if res.Deadlock || !walkReturned {
 		if !res.StepLimit && res.Divergence == "" {
